@@ -4,6 +4,7 @@ Oracle: Spec.run (Lean) of the block before and after each pass on every Output,
 difference handled exactly: registers the pass eliminated are started at the constant they settle to.
 Proofs: Proofs/Props/C04.lean — the constant-folding tables (regenerated from passes.py on every
 run) are sound for every width; wire/slice elision and dead-logic removal preserve the valuation."""
+import os
 import pyrtl
 from pyrtl import Input, Output, Register, Const
 from pyrtl import passes
@@ -66,7 +67,9 @@ def _real_nets(block):
         elif n.op == 's':
             par = tuple(int(x) for x in par)
         out.append(_net_names(n.op, par, [a.name for a in n.args], [d.name for d in n.dests]))
-    return sorted(out, key=repr)
+    # (Block.logic is a set of value-compared tuples: two identical nets -- e.g. two write ports that became identical
+    # after a substitution -- are one element there; the comparison with the model is therefore on sets)
+    return sorted(set(out), key=repr)
 
 
 def _derive_cert(kind, ser, after_block):
@@ -94,22 +97,30 @@ def _derive_cert(kind, ser, after_block):
     for i, n in enumerate(nets):
         if n.op in 'r@' or not n.dests or n.dests[0].name in after_dests:
             continue
-        # a kept net computing the same thing
-        for k in nets:
-            if k is n or k.op != n.op or not k.dests or k.dests[0].name not in after_dests or isinstance(k.dests[0], (Output, Register)):
-                continue
-            kp = k.op_param[1].id if k.op == 'm' else k.op_param
-            np_ = n.op_param[1].id if n.op == 'm' else n.op_param
-            if kp != np_:
-                continue
-
-            def key(w):
-                return ('const', w.bitwidth, w.val) if isinstance(w, Const) else id(w)
-            ka, na = [key(a) for a in k.args], [key(a) for a in n.args]
-            if ka == na or ka == na[::-1]:
-                removed.append(i)
-                sigma.append([wid[n.dests[0]], wid[k.dests[0]]])
+        # a kept net computing the same thing: same arguments in the same order first, then (commutative ops only) swapped
+        def key(w):
+            return ('const', w.bitwidth, w.val) if isinstance(w, Const) else id(w)
+        na = [key(a) for a in n.args]
+        found = None
+        for swapped in (False, True):
+            if swapped and n.op not in '&|^n+*=':
                 break
+            for k in nets:
+                if k is n or k.op != n.op or not k.dests or k.dests[0].name not in after_dests or isinstance(k.dests[0], (Output, Register)):
+                    continue
+                kp = k.op_param[1].id if k.op == 'm' else k.op_param
+                np_ = n.op_param[1].id if n.op == 'm' else n.op_param
+                if kp != np_ or len(k.dests[0]) != len(n.dests[0]):
+                    continue
+                ka = [key(a) for a in k.args]
+                if ka == (na[::-1] if swapped else na):
+                    found = k
+                    break
+            if found is not None:
+                break
+        if found is not None:
+            removed.append(i)
+            sigma.append([wid[n.dests[0]], wid[found.dests[0]]])
     return removed, sigma
 
 
@@ -148,6 +159,11 @@ class AliasWatch(object):
             ctx.count('alias-tie-removed-nets', min(len(removed), 5))
             if not resp['scheds_ok']:
                 ctx.alias_notok = getattr(ctx, 'alias_notok', 0) + 1
+                if os.environ.get('VERIF_ALIAS_DEBUG'):
+                    import json as _j
+                    with open(os.environ['VERIF_ALIAS_DEBUG'], 'a') as f_:
+                        f_.write(_j.dumps({'kind': kind, 'removed': removed, 'sigma': sigma, 'resp_cert_ok': resp['cert_ok'],
+                                           'nets': [str(n_).strip() for n_ in ser.nets], 'wires': [w_.name for w_ in ser.wires]}) + '\n')
                 ctx.alias_first = getattr(ctx, 'alias_first', None) or ('%s: certificate not accepted (cert_ok=%s) removed=%r sigma=%r' % (
                     kind, resp['cert_ok'], removed, sigma))
             memname = {mid: m.name for mid, m in ser.mems.items()}
@@ -160,7 +176,7 @@ class AliasWatch(object):
                     par = tuple(par)
                 want.append(_net_names(n['op'], par, [ser.wires[x].name for x in n['a']], [ser.wires[x].name for x in n['d']]))
             got = _real_nets(block)
-            if sorted(want, key=repr) != got:
+            if sorted(set(want), key=repr) != got:
                 ctx.alias_bad = getattr(ctx, 'alias_bad', 0) + 1
                 only_m = [x for x in want if x not in got][:2]
                 only_r = [x for x in got if x not in want][:2]
@@ -169,7 +185,48 @@ class AliasWatch(object):
         self.saved[name] = orig
         setattr(passes, name, wrapped)
 
+    def _wrap_dead(self):
+        orig = passes._remove_unlistened_nets
+        ctx = self.ctx
+
+        def wrapped(block, *a, **kw):
+            small = len(block.logic) <= self.MAXNETS
+            ser = Ser(block) if small else None
+            res = orig(block, *a, **kw)
+            if not small:
+                ctx.count('dead-tie-skipped-large-block', 'n')
+                return res
+            kept = set(id(n) for n in block.logic)
+            removed = [i for i, n in enumerate(ser.nets) if id(n) not in kept]
+            if any(ser.nets[i].op in 'r@' for i in removed):
+                ctx.count('dead-tie-skipped', 'removes a register net (outside the model)')
+                return res
+            resp = ctx.driver.ask({'cmd': 'dead', 'block': ser.data, 'removed': removed})
+            if not resp.get('ok'):
+                raise RuntimeError('dead model: %s' % resp)
+            ctx.dead_n = getattr(ctx, 'dead_n', 0) + 1
+            ctx.count('dead-tie-removed-nets', min(len(removed), 5))
+            if not resp['scheds_ok']:
+                ctx.dead_notok = getattr(ctx, 'dead_notok', 0) + 1
+                ctx.dead_first = getattr(ctx, 'dead_first', None) or ('removal not accepted (dead_ok=%s): removed %r' % (
+                    resp['dead_ok'], [str(ser.nets[i]).strip() for i in removed][:3]))
+            memname = {mid: m.name for mid, m in ser.mems.items()}
+            want = []
+            for n in resp['nets']:
+                par = n.get('p')
+                if n['op'] in 'm@':
+                    par = memname.get(par, par)
+                elif n['op'] == 's':
+                    par = tuple(par)
+                want.append(_net_names(n['op'], par, [ser.wires[x].name for x in n['a']], [ser.wires[x].name for x in n['d']]))
+            if sorted(set(want), key=repr) != _real_nets(block):
+                ctx.dead_bad = getattr(ctx, 'dead_bad', 0) + 1
+            return res
+        self.saved['_remove_unlistened_nets'] = orig
+        passes._remove_unlistened_nets = wrapped
+
     def __enter__(self):
+        self._wrap_dead()
         self._wrap('_remove_wire_nets', 'wire')
         self._wrap('_remove_slice_nets', 'slice')
         self._wrap('_replace_subexps', 'cse')
@@ -334,6 +391,11 @@ def main(ctx):
                '%d/%d calls differ, %d certificates not accepted, %d derivation errors%s' % (
                    ab, an, ak, ae, ('; first: ' + ctx.alias_first) if getattr(ctx, 'alias_first', None) else ''))
     ctx.extra['alias_tie'] = {'calls': an, 'differ': ab, 'not_accepted': ak, 'errors': ae}
+    dn, db, dk = (getattr(ctx, x, 0) for x in ('dead_n', 'dead_bad', 'dead_notok'))
+    ctx.oblige('tie:_remove_unlistened_nets = Lean Dead.applyDead of a closed removal (net by net; deadOk and deadSchedsOkB '
+               'evaluated per call; calls that remove a register net are outside the model and skipped)', db == 0 and dk == 0 and dn > 0,
+               '%d/%d calls differ, %d removals not accepted%s' % (db, dn, dk, ('; first: ' + ctx.dead_first) if getattr(ctx, 'dead_first', None) else ''))
+    ctx.extra['dead_tie'] = {'calls': dn, 'differ': db, 'not_accepted': dk}
     ctx.oblige('oracle:Spec(pass(b))=Spec(b) on Outputs; io kept; result well-formed', not ctx.violations,
                '%d/%d (variant, pass) applications agree' % (agree, total))
     return conclude(ctx, rule='random designs enriched with constants (constant operands, constant-fed registers, constants '
